@@ -1,4 +1,11 @@
 // C05 - slicing follows Python/NumPy basic-indexing semantics (E1 over the per-axis alphabet + multi-axis combinations)
+// ops: s1 / d1 / i1 (one axis), nd (1..3 axes, ranges spelled as full triples), big (index math), and - argument kinds the former never pass -
+//      es|shape|part...      typed parts that KEEP their None parts next to integers / ":" / Ellipsis: view::slice, array::slice, array::apply_slice(tuple),
+//                            list-of-either (view:: and array::apply_slice) where one either type can hold the parts
+//      ct|shape|form|x[,y]   integers / range parts as compile-time constants mixed with run-time values (forms: CT_FORMS)
+//      short|shape|part...   fewer parts than axes, no Ellipsis (NumPy keeps the remaining axes whole)
+//      e2|shape|part...      list-of-either whose either type has TWO range alternatives ({s,None} and {None,e}) besides int and Ellipsis
+// non-trivial (es, ct, short, e2 as for nd): the selection is not the whole source, or Python gives an empty result
 #include "nmtools/array/view/slice.hpp"
 #include "nmtools/array/array/slice.hpp"
 #define NMC_MAIN
@@ -27,6 +34,8 @@ constexpr int ES_PT[][3] = {
     {1, 8, 2}, {4, 8, 3}, {6, 8, 5},   {8, 2, 4}, {8, 3, 1},   {5, 6, 8}, {1, 4, 8},   {1, 2, 4}, {3, 5, 6},
     // eager form of the kinds the lazy "nd" family already passes (full triples, ":", integers, Ellipsis)
     {7, 8, -1}, {8, 7, -1}, {0, 7, 8}, {8, 9, 7}, {7, 9, 8}, {8, 8, 7}, {7, 0, 9},
+    // a single range part on a 1-d array (the pack holds ONE tuple: it must be wrapped, not copied)
+    {1, -1, -1}, {2, -1, -1}, {3, -1, -1}, {4, -1, -1}, {5, -1, -1}, {6, -1, -1},
 };
 constexpr size_t ES_NPT = sizeof ES_PT / sizeof ES_PT[0];
 static int part_code(const L& p) { return p[0] == K_INT ? P_INT : (p[0] == K_ELL ? P_ELL : (p[0] == K_ALL ? 0 : (int)p[1])); }
@@ -144,14 +153,14 @@ void nmc_enumerate(const nmc::Tier& t, const nmc::Sink& emit_) {
     });
     // ---- argument kinds the families above never pass (audit of optional parameters / overloads / argument kinds) -------------------
     // es: typed parts that KEEP their None parts ({s,None}, {None,e}, {None,None,st}, {s,e}, {s,None,st}, {None,e,st}) combined with integers, ":"
-    //     and an Ellipsis on 2-d / 3-d arrays; lazy view::slice, eager array::slice, array::apply_slice(tuple) and - where one either type can hold
+    //     and an Ellipsis on 2-d / 3-d arrays (a lone range: 1-d); lazy view::slice, eager array::slice, array::apply_slice(tuple) and - where one either type can hold
     //     the parts - the list-of-either encoding (view::apply_slice / array::apply_slice).  Only the type patterns of ES_PT are instantiated
     //     (every None pattern next to an integer / an Ellipsis / another range, in every position); per part a 2-3 value menu with Python length >= 1.
     {
         long lo = t.thorough() ? 1 : 2, hi = t.thorough() ? 4 : 3;
         for (size_t pi = 0; pi < ES_NPT; pi++) {
             int np = 0, nell = 0; for (int k = 0; k < 3; k++) if (ES_PT[pi][k] != P_END) { np++; if (ES_PT[pi][k] == P_ELL) nell++; }
-            for (int d = std::max(2, np - nell); d <= (nell ? 3 : np - nell); d++) nmc::each_tuple((size_t)d, lo, hi, [&](const L& shp) {
+            for (int d = (np == 1 && !nell) ? 1 : std::max(2, np - nell); d <= (nell ? 3 : np - nell); d++) nmc::each_tuple((size_t)d, lo, hi, [&](const L& shp) {
                 std::vector<std::vector<L>> m; size_t ax = 0;
                 for (int k = 0; k < np; k++) {
                     int code = ES_PT[pi][k];
@@ -189,6 +198,14 @@ void nmc_enumerate(const nmc::Tier& t, const nmc::Sink& emit_) {
             L l0(m.size(), 0), h0; for (auto& x : m) h0.push_back((long)x.size() - 1);
             nmc::each_tuple(l0, h0, [&](const L& pick) { Case c("short"); c.a.push_back(shp); for (size_t k = 0; k < m.size(); k++) c.a.push_back(m[k][(size_t)pick[k]]); emit(c); });
         }
+    });
+    // e2: the run-time encoding with an either type that has two different range alternatives: every sequence over {integer, {s,None}, {None,e}} for all axes
+    for (int d = 2; d <= 3; d++) nmc::each_tuple((size_t)d, t.thorough() ? 1L : 2L, t.thorough() ? 4L : 3L, [&](const L& shp) {
+        nmc::each_tuple((size_t)d, 0, 2, [&](const L& kind) {
+            Case c("e2"); c.a.push_back(shp);
+            for (int k = 0; k < d; k++) { long n = shp[(size_t)k]; c.a.push_back(kind[(size_t)k] == 0 ? L{K_INT, -1} : (kind[(size_t)k] == 1 ? L{K_RANGE, 1, n > 1 ? 1 : 0, 0, 0} : L{K_RANGE, 2, 0, n > 1 ? -1 : 1, 0})); }
+            emit(c);
+        });
     });
     // huge extents, index math only (the length goes through float)
     for (long n : {(1L << 16) + 1, (1L << 24) - 1, (1L << 24) + 1, (1L << 31) - 1})
@@ -444,6 +461,24 @@ Outcome nmc_execute(const Case& c) {
         Outcome e = verdict(eager, want, zero, ierr, nontriv, "array::slice(ct)");
         if (!e.fail.empty()) return e;
         return v;
+    }
+    if (c.op == "e2") {
+        const L& shp = c.a[0]; LL parts(c.a.begin() + 1, c.a.end());
+        RArr r = RArr::iota(shp); auto a = make_arr<long>(shp);
+        bool zero, ierr; ROpt want = model_nd(r, parts, zero, ierr);
+        bool nontriv = want && want->data != r.data;
+        using t1 = nmtools_tuple<int, nm::none_t>; using t2 = nmtools_tuple<nm::none_t, int>;
+        using in2_t = nmtools_either<t2, nm::ellipsis_t>; using in1_t = nmtools_either<t1, in2_t>; using part_t = nmtools_either<int, in1_t>;
+        nmtools_list<part_t> sl;
+        for (auto& p : parts) {
+            int k = part_code(p);
+            if (k == P_INT) sl.push_back(part_t{(int)p[1]});
+            else if (k == P_ELL) sl.push_back(part_t{in1_t{in2_t{nm::Ellipsis}}});
+            else if (k == 1) sl.push_back(part_t{in1_t{t1{(int)p[2], None}}});
+            else if (k == 2) sl.push_back(part_t{in1_t{in2_t{t2{None, (int)p[3]}}}});
+            else nmc::die("e2: part kind not representable");
+        }
+        return verdict(nmc::observe(view::apply_slice(a, sl)), want, zero, ierr, nontriv, "list of either with two range alternatives");
     }
     if (c.op == "short") {
         const L& shp = c.a[0]; LL parts(c.a.begin() + 1, c.a.end());
